@@ -798,6 +798,29 @@ theorem describe_for_execution_links (cfg : Cfg) (env : Env) (s : State) (p : Pa
     simp [Verdict.read, State.apply, State.answer]
   · simp only [req, step_obj, handle_describe_execution, ha, he, finish, Verdict.read, State.apply, State.answer]
 
+/-- … and when the link dangles: an execution record whose `stateMachineArn` is not a
+state-machine ARN is answered InvalidArn, one whose machine is gone (deleted since, or never
+there) StateMachineDoesNotExist — the stores stay as they were, and DescribeExecution still
+answers the record -/
+theorem describe_for_execution_dangling (cfg : Cfg) (env : Env) (s : State) (p : Params)
+    (earn : Str) (e : Exec)
+    (ha : arnArg validExecArn (arg p "executionArn") = .ok earn)
+    (he : lookup s.executions earn = some e) :
+    (validSmArn e.stateMachineArn = false →
+      step cfg env s (req "DescribeStateMachineForExecution" p) = (s, .error (S "InvalidArn"))) ∧
+    (validSmArn e.stateMachineArn = true → lookup s.machines e.stateMachineArn = none →
+      step cfg env s (req "DescribeStateMachineForExecution" p) =
+        (s, .error (S "StateMachineDoesNotExist"))) ∧
+    step cfg env s (req "DescribeExecution" p) = (s, .ok (e.toJson earn)) := by
+  refine ⟨?_, ?_, ?_⟩
+  · intro hv
+    simp only [req, step_obj, handle_describe_for_execution, ha, he, hv, finish]
+    simp
+  · intro hv hm
+    simp only [req, step_obj, handle_describe_for_execution, ha, he, hv, hm, finish]
+    simp
+  · simp only [req, step_obj, handle_describe_execution, ha, he, finish, Verdict.read, State.apply, State.answer]
+
 /-! ### non-vacuity: the hypotheses above are met by concrete, non-trivial requests -/
 
 private def cfg0 : Cfg := { region := S "local", validateAsl := false, logging := true }
@@ -987,6 +1010,13 @@ example : WF s2 ∧ keys s2.machines = [arn0] ∧
    by decide +kernel, okIs_eq _ _ (by decide +kernel), by decide +kernel, by decide +kernel,
    by decide +kernel, by decide +kernel, by decide +kernel, okIs_eq _ _ (by decide +kernel),
    ex_of_any _ _ (by decide +kernel)⟩
+
+-- describe_for_execution_dangling: the machine of the recorded execution has been deleted
+example : (∃ e, lookup (step cfg0 env1 s2 (req "DeleteStateMachine" pArn)).1.executions earn0 = some e ∧
+      (validSmArn e.stateMachineArn &&
+        (lookup (step cfg0 env1 s2 (req "DeleteStateMachine" pArn)).1.machines e.stateMachineArn).isNone) = true) ∧
+    validSmArn (S "junk") = false :=
+  ⟨ex_of_any _ _ (by decide +kernel), by decide +kernel⟩
 
 -- no_internal_error speaks about every request; the one a front end used to answer 500:
 example : (step cfg0 env1 s1 ⟨S "DescribeExecution", some (.num 5)⟩).2 =
